@@ -41,7 +41,7 @@ def moved_before(order):
             for other in ('bus', 'hh0', 'cap'):
                 if (zi, ci, other) in pos and pos[(zi, ci, other)] > i:
                     hit = True
-        if role in ('tax', 'money', 'deposit'):
+        if role in ('tax', 'money', 'deposit', 'bonds'):
             for k2, j in pos.items():
                 if k2[0] == zi and k2[2] in ('hh0', 'hh1', 'cap', 'gov', 'cb', 'bus') and j > i:
                     hit = True
